@@ -173,7 +173,9 @@ def run_listen(cfg, via, cfg_mode, ch, public_port=80):
             c_up = 0
             if reached_cmd:
                 # step 3: the creating command
-                c_cmd = ch.choose(3, 'create-command')     # 0 accepted, 1 rejected, 2 connection lost
+                c_cmd = ch.choose(4, 'create-command')     # 0 accepted, 1 rejected, 2 connection lost, 3 accepted while another service is uploading
+                other = 'otherserviceotherserviceotherserviceotherserviceotherser'
+                hd2 = '$' + 'EF' * 20
                 if rec.fires:
                     viol.append(('listen-fired-before-service-exists', cfg['kind'], '%r' % (rec.summary(),)))
                 if c_cmd == 1:
@@ -185,20 +187,38 @@ def run_listen(cfg, via, cfg_mode, ch, public_port=80):
                     injected = 'lost'
                     impl.wire.lose(failure.Failure(error.ConnectionLost()))
                 else:
+                    if c_cmd == 3:
+                        # a service somebody else runs on this Tor starts an upload while our command is in flight ...
+                        sim.event('HS_DESC UPLOAD %s UNKNOWN %s descX' % (other, hd2))
                     sim.hold_prefixes = []
                     sim.pump()
+                    if c_cmd == 3:
+                        # ... and finishes it right after our command was answered
+                        sim.event('HS_DESC UPLOADED %s UNKNOWN %s' % (other, hd2))
+                        sim.pump()
+                        if rec.fires:
+                            viol.append(('listen-fired-before-descriptor-upload', cfg['kind'] + '/on-another-service-UPLOADED-around-reply', '%r' % (rec.summary(),)))
                     the_sid = (list(sim.onions)[-1] if sim.onions else None) if cfg['kind'] == 'eph' else FS_ID
                     sid[0] = the_sid
-                    if rec.fires:
+                    if rec.fires and not viol:
                         viol.append(('listen-fired-before-descriptor-upload', cfg['kind'], '%r' % (rec.summary(),)))
                     # step 4: the descriptor uploads
-                    c_up = ch.choose(2, 'uploads')          # 0 one succeeds, 1 every upload fails
+                    c_up = ch.choose(4, 'uploads')          # 0 one succeeds, 1 every upload fails, 2 caller cancels the wait, 3 another service's upload succeeds first
                     hd = '$' + 'CD' * 20
+                    if c_up == 3:
+                        sim.event('HS_DESC UPLOAD %s UNKNOWN %s descX' % (other, hd2))
+                        sim.event('HS_DESC UPLOADED %s UNKNOWN %s' % (other, hd2))
+                        sim.pump()
+                        if rec.fires:
+                            viol.append(('listen-fired-before-descriptor-upload', cfg['kind'] + '/on-another-service-UPLOADED', '%r' % (rec.summary(),)))
                     sim.event('HS_DESC UPLOAD %s UNKNOWN %s desc1' % (the_sid, hd))
-                    if rec.fires:
+                    if rec.fires and not viol:
                         viol.append(('listen-fired-before-descriptor-upload', cfg['kind'] + '/on-UPLOAD', '%r' % (rec.summary(),)))
-                    if c_up == 0:
+                    if c_up in (0, 3):
                         sim.event('HS_DESC UPLOADED %s UNKNOWN %s' % (the_sid, hd))
+                    elif c_up == 2:
+                        injected = 'cancelled'
+                        rec.d.cancel()
                     else:
                         injected = 'uploads-failed'
                         sim.event('HS_DESC FAILED %s UNKNOWN %s desc1 REASON=UPLOAD_REJECTED' % (the_sid, hd))
@@ -206,7 +226,7 @@ def run_listen(cfg, via, cfg_mode, ch, public_port=80):
             # ---------------- oracle at quiescence
             cmds = sim.commands[base:]
             feat = '%s%s' % (cfg['kind'], '/auth' if cfg.get('auth') else '')
-            ok_path = (c_cfg in (0, 4), c_bind, c_cmd, c_up) == (True, 0, 0, 0)
+            ok_path = (c_cfg in (0, 4), c_bind) == (True, 0) and c_cmd in (0, 3) and c_up in (0, 3)
             ports = w.reactor.ports
             if len(rec.fires) != 1:
                 viol.append(('listen-fired-%d-times' % len(rec.fires), feat + ('/ok-path' if ok_path else '/fault-%s' % (injected if isinstance(injected, str) else type(injected).__name__)),
@@ -282,6 +302,11 @@ def run_listen(cfg, via, cfg_mode, ch, public_port=80):
     return dict(viol=viol, obs=obs, log=log + ['config %r via %s (%s); choices %r' % (cfg, via, cfg_mode, ch.trail)])
 
 
+def _client_ep(reactor):
+    from twisted.internet.endpoints import TCP4ClientEndpoint
+    return TCP4ClientEndpoint(reactor, '127.0.0.1', 9051)
+
+
 def invalid_cases():
     """(label, thunk(reactor, cfg)) - each must raise and start nothing"""
     out = []
@@ -299,7 +324,21 @@ def invalid_cases():
     out.append(('stealth_auth+auth', ctor(hidden_service_dir='/tmp/x', stealth_auth=['a'], auth=AuthStealth(['b']))))
     out.append(('public_port-None', lambda r, c: TCPHiddenServiceEndpoint(r, c, None)))
     out.append(('public_port-not-a-number', lambda r, c: TCPHiddenServiceEndpoint(r, c, 'http')))
+    out.append(('v3+rsa-key', ctor(version=3, private_key='RSA1024:SOMEKEYBLOB==')))
+    out.append(('v3+rsa-key+single-hop', ctor(version=3, private_key='RSA1024:SOMEKEYBLOB==', single_hop=True)))
+    out.append(('key-with-LF', ctor(version=3, private_key='ED25519-V3:AB\nCD')))
+    out.append(('key-with-CR', ctor(version=2, private_key='RSA1024:AB\rCD')))
+    out.append(('bare-key-with-LF', ctor(private_key='AB\nCD')))
+    out.append(('v2-auth+key-with-LF', ctor(version=2, private_key='RSA1024:AB\nCD', auth=AuthBasic(['alice']))))
     p = TCPHiddenServiceEndpointParser()
+    out.append(('string:v3+rsa-key', lambda r, c: p.parseStreamServer(r, '80', controlPort='9051', version='3', privateKey='RSA1024:SOMEKEYBLOB==')))
+    out.append(('string:controlPort+dir+key', lambda r, c: p.parseStreamServer(r, '80', controlPort='9051', hiddenServiceDir='/tmp/x', privateKey='RSA1024:x')))
+    out.append(('string:controlPort+dir+single-hop', lambda r, c: p.parseStreamServer(r, '80', controlPort='9051', hiddenServiceDir='/tmp/x', singleHop='true')))
+    out.append(('system_tor:stealth', lambda r, c: TCPHiddenServiceEndpoint.system_tor(r, _client_ep(r), 80, auth=AuthStealth(['a']))))
+    out.append(('private_tor:v3+rsa-key', lambda r, c: TCPHiddenServiceEndpoint.private_tor(r, 80, version=3, private_key='RSA1024:SOMEKEYBLOB==')))
+    out.append(('global_tor:dir+single-hop', lambda r, c: TCPHiddenServiceEndpoint.global_tor(r, 80, hidden_service_dir='/tmp/x', single_hop=True)))
+    out.append(('global_tor:stealth', lambda r, c: TCPHiddenServiceEndpoint.global_tor(r, 80, ephemeral=True, auth=AuthStealth(['a']))))
+    out.append(('private_tor:dir+key', lambda r, c: TCPHiddenServiceEndpoint.private_tor(r, 80, hidden_service_dir='/tmp/x', private_key='RSA1024:x')))
     out.append(('string:dir+key', lambda r, c: p.parseStreamServer(r, '80', hiddenServiceDir='/tmp/x', privateKey='RSA1024:x')))
     out.append(('string:bad-singleHop', lambda r, c: p.parseStreamServer(r, '80', controlPort='9051', singleHop='maybe')))
     out.append(('string:bad-version', lambda r, c: p.parseStreamServer(r, '80', controlPort='9051', version='five')))
@@ -311,9 +350,14 @@ def invalid_cases():
 def run_invalid(i):
     label, thunk = invalid_cases()[i]
     viol = []
+    import txtorcon.controller as _ctl
     with World() as w:
         impl = CfgImpl(w, [('SocksPort', ['9050'])])
         base = len(impl.sim.commands)
+        old_find = _ctl.find_tor_binary
+        _ctl.find_tor_binary = lambda *a, **k: '/usr/sbin/tor'      # so that a launch, if one is started, reaches spawnProcess
+        old_tmp = tempfile.tempdir
+        tempfile.tempdir = workdir()
         try:
             thunk(w.reactor, impl.cfg)
             viol.append(('invalid-combination-accepted', label, 'no exception'))
@@ -321,6 +365,9 @@ def run_invalid(i):
             pass
         except Exception as e:
             viol.append(('invalid-combination-other-error', label, '%r' % (e,)))
+        finally:
+            _ctl.find_tor_binary = old_find
+            tempfile.tempdir = old_tmp
         impl.sim.pump()
         if w.reactor.ports or w.reactor.connectors or w.reactor.processes or impl.sim.commands[base:]:
             viol.append(('started-before-refusing', label, 'ports %r connectors %r commands %r'
